@@ -62,7 +62,9 @@ func (s *unicastSubjectImpl[T]) Subscribe(destination Observer[T]) Subscription 
 func (s *unicastSubjectImpl[T]) SubscribeWithContext(subscriberCtx context.Context, destination Observer[T]) Subscription {
 	subscription := NewSubscriber(destination)
 
+	verifPoint("subject_unicast:SubscribeWithContext:lock#0", s)
 	s.mu.Lock()
+	defer verifPoint("subject_unicast:SubscribeWithContext:ret#0", s)
 	defer s.mu.Unlock()
 
 	switch s.status {
@@ -90,9 +92,11 @@ func (s *unicastSubjectImpl[T]) SubscribeWithContext(subscriberCtx context.Conte
 	s.observer = subscription
 
 	subscription.Add(func() {
+		verifPoint("subject_unicast:SubscribeWithContext:lock#1", s)
 		s.mu.Lock()
 		s.observer = nil
 		s.mu.Unlock()
+		verifPoint("subject_unicast:SubscribeWithContext:unlocked#0", s)
 	})
 
 	return subscription
@@ -105,6 +109,7 @@ func (s *unicastSubjectImpl[T]) Next(value T) {
 
 // Implements Observer.
 func (s *unicastSubjectImpl[T]) NextWithContext(ctx context.Context, value T) {
+	verifPoint("subject_unicast:NextWithContext:lock#0", s)
 	s.mu.Lock()
 
 	if s.status == KindNext { //nolint:nestif
@@ -123,6 +128,7 @@ func (s *unicastSubjectImpl[T]) NextWithContext(ctx context.Context, value T) {
 	}
 
 	s.mu.Unlock()
+	verifPoint("subject_unicast:NextWithContext:unlocked#0", s)
 }
 
 // Implements Observer.
@@ -132,6 +138,7 @@ func (s *unicastSubjectImpl[T]) Error(err error) {
 
 // Implements Observer.
 func (s *unicastSubjectImpl[T]) ErrorWithContext(ctx context.Context, err error) {
+	verifPoint("subject_unicast:ErrorWithContext:lock#0", s)
 	s.mu.Lock()
 
 	if s.status == KindNext {
@@ -151,6 +158,7 @@ func (s *unicastSubjectImpl[T]) ErrorWithContext(ctx context.Context, err error)
 	}
 
 	s.mu.Unlock()
+	verifPoint("subject_unicast:ErrorWithContext:unlocked#0", s)
 }
 
 // Implements Observer.
@@ -160,6 +168,7 @@ func (s *unicastSubjectImpl[T]) Complete() {
 
 // Implements Observer.
 func (s *unicastSubjectImpl[T]) CompleteWithContext(ctx context.Context) {
+	verifPoint("subject_unicast:CompleteWithContext:lock#0", s)
 	s.mu.Lock()
 
 	if s.status == KindNext {
@@ -178,17 +187,22 @@ func (s *unicastSubjectImpl[T]) CompleteWithContext(ctx context.Context) {
 	}
 
 	s.mu.Unlock()
+	verifPoint("subject_unicast:CompleteWithContext:unlocked#0", s)
 }
 
 func (s *unicastSubjectImpl[T]) HasObserver() bool {
+	verifPoint("subject_unicast:HasObserver:lock#0", s)
 	s.mu.Lock()
+	defer verifPoint("subject_unicast:HasObserver:ret#0", s)
 	defer s.mu.Unlock()
 
 	return s.observer != nil
 }
 
 func (s *unicastSubjectImpl[T]) CountObservers() int {
+	verifPoint("subject_unicast:CountObservers:lock#0", s)
 	s.mu.Lock()
+	defer verifPoint("subject_unicast:CountObservers:ret#0", s)
 	defer s.mu.Unlock()
 
 	if s.observer != nil {
@@ -200,7 +214,9 @@ func (s *unicastSubjectImpl[T]) CountObservers() int {
 
 // Implements Observer.
 func (s *unicastSubjectImpl[T]) IsClosed() bool {
+	verifPoint("subject_unicast:IsClosed:lock#0", s)
 	s.mu.Lock()
+	defer verifPoint("subject_unicast:IsClosed:ret#0", s)
 	defer s.mu.Unlock()
 
 	return s.status != KindNext
@@ -208,7 +224,9 @@ func (s *unicastSubjectImpl[T]) IsClosed() bool {
 
 // Implements Observer.
 func (s *unicastSubjectImpl[T]) HasThrown() bool {
+	verifPoint("subject_unicast:HasThrown:lock#0", s)
 	s.mu.Lock()
+	defer verifPoint("subject_unicast:HasThrown:ret#0", s)
 	defer s.mu.Unlock()
 
 	return s.status == KindError
@@ -216,7 +234,9 @@ func (s *unicastSubjectImpl[T]) HasThrown() bool {
 
 // Implements Observer.
 func (s *unicastSubjectImpl[T]) IsCompleted() bool {
+	verifPoint("subject_unicast:IsCompleted:lock#0", s)
 	s.mu.Lock()
+	defer verifPoint("subject_unicast:IsCompleted:ret#0", s)
 	defer s.mu.Unlock()
 
 	return s.status == KindComplete
